@@ -558,5 +558,8 @@ SUBCHECKS = [
 ]
 
 
+# thorough tier: coverage-guided campaigns (atheris) on the same run_case, see pv/fuzz.py
+FUZZ = [("random-sugar", 10000)]
+
 def subcheck(name):
     return {s.name: s for s in SUBCHECKS}[name]
